@@ -140,14 +140,59 @@ theorem runLoop_first_bad (limit : Nat) (ctxAt : Option Nat) (e : DecRes) (rest 
 
 /-! ### composition with the pool model: a component error, once returned, stays on record -/
 
+@[simp] theorem ce_cancelAll (s : State) : (cancelAll s).compErrs = s.compErrs := rfl
+@[simp] theorem ce_mainReturn (s : State) (r : PRes) : (mainReturn s r).compErrs = s.compErrs := rfl
+@[simp] theorem ce_finish (s : State) : (finish s).compErrs = s.compErrs := by
+  unfold finish; split <;> rfl
+@[simp] theorem ce_checkAll (s : State) : (checkAll s).compErrs = s.compErrs := by
+  unfold checkAll; repeat' split
+  all_goals rfl
+@[simp] theorem ce_afterErr (s : State) (c : Bool) : (afterErr s c).compErrs = s.compErrs := by
+  unfold afterErr; cases c <;> simp
+@[simp] theorem ce_handleRes (s : State) (w : Wrap) (r : Ret) (d c : Bool) :
+    (handleRes s w r d c).compErrs = s.compErrs := by
+  unfold handleRes; split <;> simp
+@[simp] theorem ce_sendRes (s : State) (id : Nat) (r : Ret) : (sendRes s id r).compErrs = s.compErrs := by
+  unfold sendRes; split <;> rfl
+
+theorem ce_addErr (s : State) (r : Ret) : ∃ l, (addErr s r).compErrs = s.compErrs ++ l := by
+  cases r with
+  | err e => exact ⟨[e], rfl⟩
+  | ok => exact ⟨[], by simp [addErr]⟩
+  | ctx => exact ⟨[], by simp [addErr]⟩
+  | ooa => exact ⟨[], by simp [addErr]⟩
+
+/-- a step never removes a recorded component error -/
+theorem compErrs_step_append (cfg : Cfg) (s : State) (c : Choice) : ∃ l, (step cfg s c).compErrs = s.compErrs ++ l := by
+  cases c with
+  | provRet r =>
+    simp only [step]; split
+    · obtain ⟨l, hl⟩ := ce_addErr { s with prov := .ready r } r; exact ⟨l, hl⟩
+    · exact ⟨[], by simp⟩
+  | aggRet r =>
+    simp only [step]; split
+    · obtain ⟨l, hl⟩ := ce_addErr { s with agg := .ready r } r; exact ⟨l, hl⟩
+    · exact ⟨[], by simp⟩
+  | instRet i r =>
+    simp only [step]; split
+    · split
+      · exact ⟨[], by simp⟩
+      · rename_i id g _ _
+        obtain ⟨l, hl⟩ := ce_addErr { s with live := s.live.eraseIdx i, retired := s.retired ++ [closeGun g] } r
+        exact ⟨l, by rw [ce_sendRes]; exact hl⟩
+    · exact ⟨[], by simp⟩
+  | _ =>
+    simp only [step]
+    repeat' split
+    all_goals first
+      | (refine ⟨[], ?_⟩; simp; done)
+      | (refine ⟨[_], ?_⟩; simp; done)
+
 theorem compErrs_step (cfg : Cfg) (s : State) (c : Choice) (h : s.compErrs ≠ []) : (step cfg s c).compErrs ≠ [] := by
-  cases c <;>
-    simp only [step, cancelAll, mainReturn, finish, checkAll, afterErr, handleRes, addErr, sendRes, nextWait] <;>
-    (repeat' split) <;>
-    (first
-      | exact h
-      | (dsimp only; first | exact h | (intro hh; exact h (List.append_eq_nil_iff.1 hh).1))
-      | (intro hh; exact h (List.append_eq_nil_iff.1 hh).1))
+  obtain ⟨l, hl⟩ := compErrs_step_append cfg s c
+  rw [hl]
+  intro hh
+  exact h (List.append_eq_nil_iff.1 hh).1
 
 theorem compErrs_run (cfg : Cfg) (post : List Choice) : ∀ (s : State), s.compErrs ≠ [] → (post.foldl (step cfg) s).compErrs ≠ [] := by
   induction post with
